@@ -2,5 +2,4 @@
 # setup_cmd: builds (does not run) every harness unit against /repo so that the
 # checks start from a warm build cache.  Offline; files on disk only.
 cd "$(dirname "$0")/.."
-python3 tools/genmanifest.py >/dev/null 2>&1 || true
 exec python3 tools/vcheck.py --warm
